@@ -311,3 +311,31 @@ Proof. exists (Str "nt"), (Some (Str "zip")), KRaw. split; [exact accepted_zip_r
 Lemma C08_dispatch_url_format_refuted :
   exists fmt cm k, accepted fmt cm k /\ dispatch fmt cm k = inr CEValue.
 Proof. exists (Str "tsv_spo"), None, KUrl. split; [exact accepted_url_tsv | reflexivity]. Qed.
+
+(** ** the property's own form, line-based channels: relative to the raw
+    string (the reference channel), every partition / compression yields the
+    same extracted shapes -- over the two independently built yielders *)
+Theorem C08_channel_independent_lines :
+  forall pyfloat read_nt read_ttl gunzip unxz unzip rdf_parse fa c thr fmt read (o o1 o2 : porc) cm lss stored ms G,
+    line_family pyfloat read_nt fmt read -> line_compositional read ->
+    blanks_harmless read (List.concat lss) -> cm_plain cm ->
+    Forall (Forall line_ok) lss ->
+    Forall2 (stored_as gunzip unxz cm) (map render_lines lss) stored ->
+    rd_stream (channel pyfloat read_nt read_ttl gunzip unxz unzip rdf_parse o fmt None
+                       (SRaw (render_lines (List.concat lss)))) = inl ms ->
+    graph_of_m ms = Some G ->
+    run_over_passes fa c thr (passes pyfloat read_nt read_ttl gunzip unxz unzip rdf_parse o1 o2 fmt cm (SFiles stored))
+    = Some (run_shapes fa c thr G).
+Proof. exact channel_independent_files. Qed.
+Print Assumptions C08_channel_independent_lines.
+
+(** closed form for the TSV channel (reader modelled here): the shapes are those of [kinded g] *)
+Theorem C08_tsv_channel_independent :
+  forall pyfloat read_nt read_ttl gunzip unxz unzip rdf_parse fa c thr (o1 o2 : porc) cm g lss stored,
+    tsv_dom g = true -> Forall line_ok (map tsv_line_of g) ->
+    List.concat lss = map tsv_line_of g -> cm_plain cm ->
+    Forall2 (stored_as gunzip unxz cm) (map render_lines lss) stored ->
+    run_over_passes fa c thr (passes pyfloat read_nt read_ttl gunzip unxz unzip rdf_parse o1 o2 (Str "tsv_spo") cm (SFiles stored))
+    = Some (run_shapes fa c thr (kinded g)).
+Proof. exact tsv_channel_independent. Qed.
+Print Assumptions C08_tsv_channel_independent.
